@@ -52,7 +52,7 @@ def run_model(exe, jobs, **k):
     return _timed('model ' + os.path.basename(os.path.dirname(exe)), _run_model, exe, jobs, **k)
 
 PROP = 'C18'
-VARIANT = 1 if os.environ.get('C18_VARIANT', '') == 'fixed' else 0
+VARIANT = 0 if os.environ.get('C18_VARIANT', '') == 'unfixed' else 1   # /repo carries the fix commit for D13: the model is exec_input_fixed
 
 TYNAME = {1: 'INTEGER', 2: 'LONG', 3: 'SINGLE', 4: 'DOUBLE', 5: 'STRING'}
 SUFFIX = {1: '%', 2: '&', 3: '!', 4: '#', 5: '$'}
